@@ -69,18 +69,29 @@ def impl_monitor(l, impl_rows):
     """cglue_impl_group!(T, G, { listed }): the vtables filled for T are exactly the listed ones (for the owned and the Fwd filler alike)"""
     fails = []
     nmand, names = _names(l)
+    hdr = [int(x) for x in l.split("|", 1)[0].split()]
+    fm = hdr[2] if len(hdr) > 2 else 0
+    nopt = len(names) - nmand
     for r in impl_rows.split(" ; "):
         r = [int(x) for x in r.split()]
         mask = r[0]
-        listed = [names[nmand + b] for b in range(len(names) - nmand) if mask >> b & 1]
+        listed = [names[nmand + b] for b in range(nopt) if mask >> b & 1]
+        # the forward list of the case (header field 3): the same list, none, the complement, the rotation — independent of the owned list
+        fmask = ((1 << nopt) - 1) - mask if fm == 2 else ((mask // 2 + (mask % 2) * (1 << (nopt - 1))) if nopt else 0) if fm == 3 else mask
+        flisted = [names[nmand + b] for b in range(nopt) if fmask >> b & 1]
+        src = "cglue_impl_group!(T, G, {%s}%s)" % (", ".join(listed), "" if fm == 1 else ", {%s}" % ", ".join(flisted))
         if len(r) < 7:
-            fails.append("cglue_impl_group!(T, G, {%s}) is rejected or its expansion is not recognised" % ", ".join(listed))
+            fails.append("%s is rejected or its expansion is not recognised" % src)
             continue
-        show = lambda m: "{%s}" % ", ".join(names[nmand + b] for b in range(len(names) - nmand) if m >= 0 and m >> b & 1)
-        for what, em, cnt in (("fill_table", r[1], r[2]), ("fill_fwd_table", r[3], r[4])):
-            if em != mask or cnt != len(listed):
-                fails.append("cglue_impl_group!(T, G, {%s}): %s enables %s with %d calls — a cast to a listed trait that is not enabled fails although the type provides it"
-                             % (", ".join(listed), what, show(em), cnt))
+        show = lambda m: "{%s}" % ", ".join(names[nmand + b] for b in range(nopt) if m >= 0 and m >> b & 1)
+        for what, em, cnt, wm, wl in (("fill_table", r[1], r[2], mask, listed), ("fill_fwd_table", r[3], r[4], fmask, flisted)):
+            if fm == 1 and what == "fill_fwd_table":
+                if (em, cnt) != (-1, -1):
+                    fails.append("%s: a Fwd filler is generated although no forward list was given" % src)
+                continue
+            if em != wm or cnt != len(wl):
+                fails.append("%s: %s enables %s with %d calls instead of %s — a cast to a listed trait that is not enabled fails although the type provides it"
+                             % (src, what, show(em), cnt, show(wm)))
         if r[6] != 0:
             fails.append("cglue_impl_group!(T, G, {%s}) enables %d vtables that are no optional trait of the group" % (", ".join(listed), r[6]))
         if r[5] != mask:
